@@ -211,7 +211,13 @@ def warmups(max_calls=4):
 def long_charged(draw, min_len=129, max_len=400):
     n = draw(st.one_of(st.integers(min_len, max_len), st.sampled_from([127, 128, 129, 130, 200, 255, 256, 257, 260, 300, 511, 512, 513])))
     n = max(min_len, min(max_len, n))
-    kind = draw(st.sampled_from(["homopolymer", "diblock", "alternating", "random-charged", "mostly-charged", "two-letter"]))
+    kind = draw(st.sampled_from(["homopolymer", "diblock", "alternating", "random-charged", "mostly-charged", "two-letter", "pow2-charged"]))
+    if kind == "pow2-charged":
+        # the NUMBER of charged residues sits on or next to a power of two (block-wise or fixed-width accumulation boundaries)
+        k = draw(st.sampled_from([k0 for k0 in (127, 128, 129, 255, 256, 257, 258, 511, 512, 513) if k0 <= max_len]))
+        z = draw(st.integers(0, min(20, max_len - k)))
+        lst0 = [draw(st.sampled_from("KRDE")) for _ in range(k)] + [draw(st.sampled_from("GSPQ")) for _ in range(z)]
+        return "".join(draw(st.permutations(lst0)))
     if kind == "homopolymer":
         s = draw(st.sampled_from(list("KREDHCY"))) * n
     elif kind == "diblock":
